@@ -178,6 +178,73 @@ theorem float_suffix_decoding (digits : List Char) (hd : ∀ c ∈ digits, neutr
   simp only [scan_neutral digits hd]
   decide
 
+/-! ### hexadecimal constants: `f` and `F` among the digits -/
+
+theorem maskHexF_append_p (m : List Char) (hm : ∀ c ∈ m, c ≠ 'p' ∧ c ≠ 'P') (c : Char) (hc : c = 'p' ∨ c = 'P') (rest : List Char) :
+    maskHexF (m ++ c :: rest) = (m.map fun x => if x = 'f' ∨ x = 'F' then '0' else x) ++ c :: rest := by
+  induction m with
+  | nil => simp [maskHexF, hc]
+  | cons x xs ih =>
+    have hx := hm x (by simp)
+    have : ¬ (x = 'p' ∨ x = 'P') := by simp [hx.1, hx.2]
+    simp only [List.cons_append, maskHexF, this, if_false, List.map_cons]
+    rw [ih (fun c' hc' => hm c' (List.mem_cons_of_mem _ hc'))]
+
+/-- a mantissa character of a hexadecimal floating constant: a hexadecimal digit, the point, or the `x` of the prefix -/
+def hexMantissaChar (c : Char) : Bool :=
+  c.isDigit || c == '.' || c == 'x' || c == 'X' || c == 'a' || c == 'b' || c == 'c' || c == 'd' || c == 'e' || c == 'f' ||
+  c == 'A' || c == 'B' || c == 'C' || c == 'D' || c == 'E' || c == 'F'
+
+theorem masked_neutral (c : Char) (h : hexMantissaChar c = true) : neutral (if c = 'f' ∨ c = 'F' then '0' else c) = true := by
+  by_cases hf : c = 'f' ∨ c = 'F'
+  · simp [hf, neutral]
+  · simp only [hf, if_false]
+    simp only [not_or] at hf
+    simp only [neutral, Bool.and_eq_true, bne_iff_ne, ne_eq]
+    simp only [hexMantissaChar, Bool.or_eq_true, beq_iff_eq] at h
+    refine ⟨⟨⟨⟨⟨?_, ?_⟩, ?_⟩, ?_⟩, hf.1⟩, hf.2⟩ <;> (intro hc; subst hc; simp [Char.isDigit] at h) <;> simp_all
+
+/-- **Hexadecimal floating constants**: whatever hexadecimal digits the mantissa holds — `f` and `F` included —, the type
+follows the suffix written after the binary exponent: none → double, `f`/`F` → float, `l`/`L` → long double.
+(`0x1.fp3` was typed `float` in the pinned tree.) -/
+theorem hex_float_suffix_decoding (mant expo : List Char) (hm : ∀ c ∈ mant, hexMantissaChar c = true)
+    (he : ∀ c ∈ expo, neutral c = true) (pc : Char) (hp : pc = 'p' ∨ pc = 'P') :
+    let body := '0' :: 'x' :: mant ++ pc :: expo
+    floatConstType (scanNum (body ++ [])) = .Double ∧
+    floatConstType (scanNum (body ++ ['f'])) = .Float ∧ floatConstType (scanNum (body ++ ['F'])) = .Float ∧
+    floatConstType (scanNum (body ++ ['l'])) = .LongDouble ∧ floatConstType (scanNum (body ++ ['L'])) = .LongDouble := by
+  intro body
+  have hnp : ∀ c ∈ ('0' :: 'x' :: mant), c ≠ 'p' ∧ c ≠ 'P' := by
+    intro c hc
+    have hmc : hexMantissaChar c = true := by
+      simp only [List.mem_cons] at hc
+      rcases hc with rfl | rfl | hc
+      · decide
+      · decide
+      · exact hm c hc
+    constructor <;> (intro h; subst h; simp [hexMantissaChar, Char.isDigit] at hmc)
+  have key : ∀ sfx : List Char, scanNum (body ++ sfx) = scan {} (expo ++ sfx) := by
+    intro sfx
+    have hb : body ++ sfx = ('0' :: 'x' :: mant) ++ pc :: (expo ++ sfx) := by simp [body]
+    have hhex : isHexSpelling (body ++ sfx) = true := by simp [body, isHexSpelling]
+    unfold scanNum
+    rw [hhex, if_pos rfl, hb, maskHexF_append_p _ hnp pc hp]
+    have hneutral : ∀ c ∈ (('0' :: 'x' :: mant).map fun x => if x = 'f' ∨ x = 'F' then '0' else x), neutral c = true := by
+      intro c hc
+      simp only [List.mem_map] at hc
+      obtain ⟨x, hx, rfl⟩ := hc
+      apply masked_neutral
+      simp only [List.mem_cons] at hx
+      rcases hx with rfl | rfl | hx
+      · decide
+      · decide
+      · exact hm x hx
+    rw [scan_neutral _ hneutral]
+    have hpn : neutral pc = true := by rcases hp with rfl | rfl <;> decide
+    rw [scan_neutral_cons _ pc _ hpn]
+  simp only [key, scan_neutral expo he]
+  decide
+
 /-- **Character constants**: the type follows the prefix, whatever the characters between the quotes are
 (`'u'`, `'L'`, `'U'` are plain `int` constants). -/
 theorem char_const_types (body : List Char) :
@@ -191,5 +258,7 @@ example : arithConv .Float .Double = .Double ∧ arithConv .Long_U .LongLong_S =
 example : intConstType false .none 2147483648 = .Long_S ∧ intConstType true .none 2147483648 = .Int_U ∧
     intConstType true .none 0xFFFFFFFFFFFFFFFF = .Long_U := by decide
 example : intSuffix (scan {} "0x1Full".toList) = .llu := by decide
+example : floatConstType (scanNum "0x1.fp3".toList) = .Double ∧ floatConstType (scanNum "0xfp1f".toList) = .Float ∧
+    floatConstType (scanNum "0XF.Fp-2L".toList) = .LongDouble ∧ intSuffix (scanNum "0xFFul".toList) = .lu := by decide
 
 end PsycheModel.Arith
